@@ -180,7 +180,19 @@ func (x *Exec) isExit(call *ast.CallExpr) bool {
 }
 
 func (x *Exec) doExit(st *State, call *ast.CallExpr) {
-	// os.Exit terminates: treated like a panic path for the contract ("exits" = does not return normally)
+	// os.Exit terminates: treated like a panic path for the contract ("exits" = does not return normally);
+	// an exit_code clause constrains the status
+	if x.con != nil && x.con.ExitCode != nil && len(call.Args) == 1 {
+		code := x.eval(call.Args[0], st)
+		env := x.specEnvAt(st, x.fi.Decl.Body.Lbrace+1)
+		env.names = map[string]Term{"code": code}
+		for _, p := range x.paramObjs {
+			env.names[p.Name()] = x.old.vars[p]
+		}
+		if f, ok := x.clause(x.con.ExitCode, env); ok {
+			x.oblige(st, "exit-code", x.con.ExitCode.Label, call, f)
+		}
+	}
 	x.doPanic(st, call)
 }
 
@@ -629,7 +641,9 @@ func (x *Exec) modified(nodes ...ast.Node) *modSet {
 					return true
 				}
 				if !pureExternals[key] {
-					ms.allMem = true
+					if _, ok := x.pureImplementers(fn); !ok {
+						ms.allMem = true
+					}
 				}
 			}
 			return true
@@ -1000,7 +1014,39 @@ func (x *Exec) rangeStmt(n *ast.RangeStmt, label string, st *State, fr *frame, k
 	coll = x.define(st, "rangeover", coll)
 	var lenT string
 	var elemAt func(st *State, i Term) Term
+	var keyAt func(st *State) Term // map ranges: the key of the current iteration
 	switch u := coll.T.Underlying().(type) {
+	case *types.Map:
+		// iteration over a map: an unknown number n >= 0 of iterations, n == 0 exactly when the map is empty; each
+		// iteration sees some key present in the map (order and distinctness are not modelled: obligations must hold
+		// for every order). The body must not modify the map.
+		mt := u
+		nn := x.ctx.fresh("range_n", "Int")
+		lenT = nn
+		ks := x.ctx.sortOf(mt.Key())
+		st.assume(app("<=", "0", nn))
+		st.assume(app("=", app("=", nn, "0"), fmt.Sprintf("(forall ((k?m %s)) (not %s))", ks, x.mapHas(st, coll, mt, Term{S: "k?m", Sort: ks}).S)))
+		kv, kh := x.regMap(mt)
+		msChk := x.modified(n.Body)
+		if msChk.allMem || msChk.mem[kv] || msChk.mem[kh] {
+			x.unsupported(n, "range over a map that the body may modify")
+		}
+		startSt := st.clone()
+		keyAt = func(s *State) Term {
+			kk := Term{S: x.ctx.fresh("mapkey", ks), Sort: ks, T: mt.Key()}
+			s.assume(x.mapHas(startSt, coll, mt, kk).S)
+			s.assume(x.typeInv(s, kk))
+			return kk
+		}
+		elemAt = nil
+		if name := fmt.Sprintf("range_n%d", ord); true {
+			v, ok := x.synth[name]
+			if !ok {
+				v = types.NewVar(n.Pos(), x.fi.Pkg.Types, name, intT)
+				x.synth[name] = v
+			}
+			st.vars[v] = Term{S: nn, Sort: "Int", T: intT}
+		}
 	case *types.Slice:
 		lenT = app("s-len", coll.S)
 		elemAt = func(st *State, i Term) Term { return x.loadElem(st, coll, i, u.Elem()) }
@@ -1023,6 +1069,29 @@ func (x *Exec) rangeStmt(n *ast.RangeStmt, label string, st *State, fr *frame, k
 	// hidden index
 	zero := mkInt(0)
 	setIter := func(s *State, i Term) {
+		if keyAt != nil {
+			mt := coll.T.Underlying().(*types.Map)
+			kk := keyAt(s)
+			if id, ok := n.Key.(*ast.Ident); ok && n.Key != nil && id.Name != "_" {
+				if n.Tok == token.DEFINE {
+					s.vars[x.info.Defs[id]] = kk
+				} else {
+					x.store(n.Key, kk, s)
+				}
+			}
+			if n.Value != nil {
+				if id, ok := n.Value.(*ast.Ident); ok && id.Name != "_" {
+					v := x.define(s, id.Name, x.mapGet(s, coll, mt, kk))
+					s.assume(x.typeInv(s, v))
+					if n.Tok == token.DEFINE {
+						s.vars[x.info.Defs[id]] = v
+					} else {
+						x.store(n.Value, v, s)
+					}
+				}
+			}
+			return
+		}
 		if n.Key != nil {
 			if id, ok := n.Key.(*ast.Ident); ok && id.Name != "_" {
 				if n.Tok == token.DEFINE {
@@ -1099,7 +1168,8 @@ func (x *Exec) rangeStmt(n *ast.RangeStmt, label string, st *State, fr *frame, k
 // bindRangeIndex makes the hidden iteration index visible to invariants: as the range key variable when
 // there is one, and always under the ghost name range_i<ordinal>.
 func (x *Exec) bindRangeIndex(n *ast.RangeStmt, st *State, i Term) {
-	if n.Key != nil && n.Tok == token.DEFINE {
+	_, isMap := x.typeOf(n.X).Underlying().(*types.Map)
+	if n.Key != nil && n.Tok == token.DEFINE && !isMap {
 		if id, ok := n.Key.(*ast.Ident); ok && id.Name != "_" {
 			st.vars[x.info.Defs[id]] = Term{S: i.S, Sort: "Int", T: intT}
 		}
@@ -1357,7 +1427,17 @@ func (x *Exec) applyContract(call ast.Node, c *FuncContract, key string, names m
 	}
 	if c.Panics != nil {
 		if f, ok := evalC(c.Panics, env); ok {
-			x.oblige(st, "callee-no-panic:"+short, c.Panics.Label, call, not(f))
+			if x.con != nil && (x.con.Panics != nil || x.con.MayPanic) {
+				// the caller may panic too: the panicking case ends this path under the caller's own panic clause
+				pst := st.clone()
+				pst.pc = append(pst.pc, pst.guards...)
+				pst.guards = nil
+				pst.pc = append(pst.pc, f)
+				pst.tag("panic-in:" + short)
+				x.doPanic(pst, call)
+			} else {
+				x.oblige(st, "callee-no-panic:"+short, c.Panics.Label, call, not(f))
+			}
 			st.assume(not(f))
 		}
 	}
